@@ -56,6 +56,7 @@ KERNELS = {
     "compare_rows_for_journalling": {"owner": "C17", "mutated": [4]},          # returns None: the result is `to_keep`
     "generate_ordered_map_to_left_both_unique": {"owner": "C19", "mutated": [2]},
     "generate_ordered_map_to_left_right_unique": {"owner": "C19", "mutated": [2]},
+    "ordered_inner_map_both_unique": {"owner": "C19", "mutated": [2, 3]},      # returns None
 }
 C08_NOSRC = ("apply_spans_count", "apply_spans_index_of_first", "apply_spans_index_of_last")
 C08_REDUCE = ("apply_spans_count", "apply_spans_first", "apply_spans_last", "apply_spans_max", "apply_spans_min",
@@ -494,7 +495,19 @@ def random_c19(rng, n_cases):
     out = []
     for t in range(n_cases):
         nl, nr = rng.randrange(0, 12), rng.randrange(0, 12)
-        bu = t % 2 == 0
+        if t % 3 == 2:
+            left, right = _sorted_keys(rng, nl, True), _sorted_keys(rng, nr, True)
+            if rng.random() < 0.1:
+                right = [rng.randrange(0, 6) for _ in range(nr)]
+            matches = len(set(left) & set(right)) if len(set(right)) == len(right) else min(nl, nr)
+            cl, cr = (matches + rng.randrange(0, 3) for _ in range(2))
+            short = rng.random() < 0.1 and matches > 0
+            if short:
+                cl = rng.randrange(0, matches)
+            out.append(gcase("ordered_inner_map_both_unique", [arr(left), arr(right), arr([7] * cl), arr([8] * cr)],
+                             unsafe=short or len(set(right)) != len(right), fuel=nl + nr + 1, _from="random"))
+            continue
+        bu = t % 3 == 0
         first = _sorted_keys(rng, nl, bu)
         second = _sorted_keys(rng, nr, True)
         if rng.random() < 0.1:                       # keys that are not sorted / not unique: every subscript is still guarded
